@@ -8,7 +8,7 @@ import time
 sys.path.insert(0, os.path.join(os.path.dirname(os.path.abspath(__file__)), "..", "lib"))
 IC = CC = None
 
-LEAN_MODULES = ["KmipModel.Props.C02", "KmipModel.Props.C02Engine", "KmipModel.Props.C02Encode", "KmipModel.Props.ServerBytes", "KmipModel.Props.ServerWF"]
+LEAN_MODULES = ["KmipModel.Props.C02", "KmipModel.Props.C02Engine", "KmipModel.Props.C02Encode", "KmipModel.Props.ServerBytes", "KmipModel.Props.ServerWF", "KmipModel.Props.ServerRun"]
 RULE = ("(a) every primitive class on the C01 boundary pools: bytes written by /repo compared with the Lean M1 encoder "
         "(written from the specification) of the same value; (b) EVERY byte string /repo's write() produced in this run "
         "— all structure instances of the C01 generation (every Struct class x 6 versions x derived instances), the "
@@ -389,6 +389,9 @@ def run(ctx):
     ctx.coverage["samples"] = [{"scenario": s[0], "ops": s[1], "reqver": s[2], "response": s[3].hex()[:200]}
                                for s in sess[:3]] + [{"what": w, "hex": b.hex()[:120]} for b, (w, _) in order[:3]]
     ctx.coverage["traces_validated_against_impl"] = len(lines)
+    # M17: every response of whole connections (any frames, any chunking) against the bytes of the composed model
+    import e2e_hook
+    e2e_hook.run(ctx, ["c02"])
     ctx.coverage["wall_total_s"] = round(time.time() - t0, 1)
 
 
@@ -496,6 +499,9 @@ def replay(ctx, rep):
     _libs()
     IC.quiet()
     r = rep["replay"]
+    if r.get("kind") == "server-e2e":
+        import e2e_hook
+        return e2e_hook.replay(ctx, rep)
     if r.get("kind") == "prim":
         import props.c01 as c01
         c01._libs()
